@@ -171,6 +171,6 @@ def run_case(case):
 
 def subchecks():
     return [
-        Sub("axilite-interconnect", run_case, strategy=st_case, examples=(1500, 50000), timeout=(900, 20000),
+        Sub("axilite-interconnect", run_case, strategy=st_case, examples=(1000, 50000), timeout=(900, 20000),
             rule="generated AXI-Lite topologies, maps, programs and five-channel schedules"),
     ]
